@@ -151,6 +151,8 @@ class Engine(Interp):
             return Opaque('DataFrame')
         if w in ('module:logging', 'module:LOGGER', 'module:logger'):
             return None
+        if w == 'super' and name == '__init__':
+            return None     # the in-tree base classes (Instrument, Scheduling, Planning ABCs) have empty constructors
         h = self.spec.dep_classes.get(w, {}).get(name)
         if h:
             self.note_assumed(f"{w}.{name}")
@@ -191,7 +193,9 @@ class Engine(Interp):
             self.list_remove(l, args[0], node)
             return None
         if name == 'pop':
-            return self.list_pick(l, node, 'pop from empty list', remove=True)
+            if args and not (isinstance(args[0], int) and args[0] == -1):
+                return self.list_pick(l, node, 'pop(i) from empty list', remove=True)
+            return self.list_pick(l, node, 'pop from empty list', remove=True, want_last=True)
         if name == 'update' and l.isset:
             other = args[0]
             if not isinstance(other, ListObj):
@@ -252,6 +256,8 @@ class Engine(Interp):
             v = args[0]
             if isinstance(v, (int, float)):
                 return int(v)
+            if isinstance(v, Sym) and v.kind == 'num' and v.isint:
+                return v
             return Sym('num', ztrunc(self.num(v)), isint=True)
         if name == 'float':
             return args[0]
